@@ -2,10 +2,11 @@ import Std.Data.HashMap
 import Driver.Proto
 import Driver.Chemicals
 import Driver.IBM
+import Driver.Gen
 open Driver
 
 def allHandlers : List (String × Handler) :=
-  chemHandlers ++ ibmHandlers
+  chemHandlers ++ ibmHandlers ++ genHandlers
 
 def table : Std.HashMap String Handler := Std.HashMap.ofList allHandlers
 
